@@ -180,6 +180,28 @@ check("C02", "exploration",
       "bounded exhaustive exploration of programs x options x delivery forms with the compiler as oracle",
       "DESIGN.md 4 C02")
 
+check("C19", "fault_enumeration",
+      "Every setting of 12 flag dimensions of the real `graphql-client generate` binary within the deviation bound of the "
+      "default invocation (quick 3, thorough 4), two query file names, output placement, formatting; the written file must "
+      "be the header plus exactly the library's token stream for the options the flag table prescribes, at "
+      "<out or query dir>/<stem>.rs, with nothing else in the tree changed. Failure clause: instances of every invalidating "
+      "edit of C06, unparsable / missing files, wrong extension, missing output directory, with and without a pre-existing "
+      "output file: non-zero exit and no file touched.",
+      "Trusted: the flag -> option table written from the property text and --help; rustfmt (formatted output compared "
+      "after re-tokenisation modulo `use` ordering).",
+      "exhaustive configuration / fault enumeration against the real binary with the library as reference",
+      "DESIGN.md 4 C19")
+
+check("C20", "fault_enumeration",
+      "Real `graphql-client introspect-schema` against a scripted loopback endpoint: all flag combinations and every "
+      "header string of the alphabet for the request model (one POST, exact JSON body, headers, bearer token; invalid "
+      "header strings refused before any connection); 19 server behaviours x {stdout, new file, existing file}; connection "
+      "closed after k bytes for every k of a content-length reply. Success => served JSON, and the written file generates "
+      "the same code as the schema's SDL; failure => non-zero exit, existing output byte-identical.",
+      "Trusted: the mock server's log of what it received. No TLS endpoint (--no-ssl not exercised).",
+      "exhaustive fault / environment enumeration against the real binary with a scripted mock endpoint",
+      "DESIGN.md 4 C20, appendix D")
+
 NOT_APPLICABLE = []
 
 
